@@ -196,6 +196,7 @@ done:
 	it := ParseLog(rd, otelstorage.Attrs(res))
 	got := 0
 	var rec logstorage.Record
+	var kept []logstorage.Record
 	for it.Next(&rec) {
 		vsymAssert(got < len(want), "no record beyond the whole, well-formed frames")
 		f := frames[want[got]]
@@ -203,9 +204,16 @@ done:
 		vsymAssert(int64(rec.Timestamp) == verifWantNs(f.tsIdx), "the timestamp is nanosecond-exact")
 		v, ok := rec.ResourceAttrs.AsMap().Get("container_id")
 		vsymAssert(ok && v.Str() == "c1", "the record carries the labels of its container")
+		kept = append(kept, rec)
 		got++
 	}
 	vsymAssert(got == len(want), "every whole record before the end/fault is decoded, in order")
+	// a record that was handed out stays what it was while the stream is read on
+	// (the merge of several containers holds one record per stream while it asks for the next)
+	for k, r := range kept {
+		f := frames[want[k]]
+		vsymAssert(r.Body == f.msg && int64(r.Timestamp) == verifWantNs(f.tsIdx), "a decoded record is not altered by decoding the following ones")
+	}
 	if wantErr {
 		vsymAssert(it.Err() != nil, "a cut inside a frame body, a daemon error frame, a bad timestamp or a read error is reported")
 	} else {
@@ -217,6 +225,7 @@ done:
 
 func VerifHarness_C03_RoundTrip_1()      { verifC03Stream(1, 2, false, false) }
 func VerifHarness_C03_RoundTrip_2()      { verifC03Stream(2, 2, false, false) }
+func VerifHarness_C03_RoundTrip_2x1()    { verifC03Stream(2, 1, false, false) }
 func VerifHarness_C03_RoundTripSplit_1() { verifC03Stream(1, 2, true, false) }
 func VerifHarness_C03_RoundTripSplit_2() { verifC03Stream(2, 1, true, false) }
 func VerifHarness_C03_Faults_1()         { verifC03Stream(1, 1, false, true) }
